@@ -7,6 +7,7 @@ import (
 	"encoding/json"
 	"errors"
 	"fmt"
+	"runtime/debug"
 	"sort"
 	"strings"
 	"time"
@@ -168,7 +169,7 @@ func (w *world) probe() []string {
 		for _, p := range probePaths {
 			ctx := hx.NewCtx(m, "http://h"+p)
 
-			ru, err := w.repo.FindRule(ctx)
+			ru, err := findRule(w.repo, ctx)
 
 			switch {
 			case err != nil && errors.Is(err, heimdall.ErrNoRuleFound):
@@ -184,6 +185,17 @@ func (w *world) probe() []string {
 	}
 
 	return out
+}
+
+// findRule is repo.FindRule with a recovered panic turned into an error (a lookup that panics is an observation).
+func findRule(repo rule.Repository, ctx heimdall.Context) (ru rule.Rule, err error) {
+	defer func() {
+		if r := recover(); r != nil {
+			ru, err = nil, fmt.Errorf("PANIC in FindRule: %v", r)
+		}
+	}()
+
+	return repo.FindRule(ctx)
 }
 
 func (w *world) curKey() string {
@@ -331,6 +343,35 @@ func checkHistory(c *engine.Ctx, hist []Op) *world {
 	return w
 }
 
+// guardedCheck is checkHistory with a panic inside the repository turned into a violation.
+func guardedCheck(c *engine.Ctx, hist []Op) (w *world) {
+	defer func() {
+		if r := recover(); r != nil {
+			site := "unknown"
+
+			for _, line := range strings.Split(string(debug.Stack()), "\n") {
+				if strings.HasPrefix(line, "github.com/dadrus/heimdall/internal/") {
+					site = strings.TrimPrefix(line, "github.com/dadrus/heimdall/internal/")
+					if i := strings.Index(site, "("); i > 0 && !strings.HasPrefix(site[i:], "(*") {
+						site = site[:i]
+					}
+
+					if i := strings.LastIndex(site, "("); i > 0 && strings.HasSuffix(site, ")") {
+						site = site[:i]
+					}
+
+					break
+				}
+			}
+
+			c.Violation("panic-in-repository/"+site, fmt.Sprintf("%v: %v", hist, r), hist)
+			w = nil
+		}
+	}()
+
+	return checkHistory(c, hist)
+}
+
 func diagnose(got, want string, cur map[string]string) string {
 	ruleOf := func(s string) (id, src, hash string) {
 		if i := strings.IndexByte(s, '@'); i > 0 {
@@ -357,6 +398,8 @@ func diagnose(got, want string, cur map[string]string) string {
 		return "order-among-rules-of-one-set-differs-from-current-version"
 	case gsrc != "" && wsrc != "":
 		return "rule-of-other-source-matches"
+	case strings.HasPrefix(got, "error:PANIC"):
+		return "lookup-panics"
 	case gsrc == "" && wsrc != "":
 		return "current-rule-not-matching(" + got + ")"
 	default:
@@ -420,7 +463,16 @@ func run(c *engine.Ctx) {
 
 			for _, op := range enabledOps(n.cur) {
 				hist := append(append([]Op{}, n.hist...), op)
-				w := checkHistory(c, hist)
+				w := guardedCheck(c, hist)
+
+				if w == nil {
+					// the operation (or a lookup after it) panicked: reported, the state is not expanded
+					c.Transitions(1)
+					c.Traces(1)
+					c.Eval(1)
+
+					continue
+				}
 
 				c.Transitions(1)
 				c.Traces(1)
@@ -466,6 +518,10 @@ func replay(c *engine.Ctx, raw json.RawMessage) {
 		return
 	}
 
-	w := checkHistory(c, hist)
+	w := guardedCheck(c, hist)
+	if w == nil {
+		return
+	}
+
 	fmt.Printf("replay: history=%v current=%s\nprobes=%v\n%s", hist, w.curKey(), w.probe(), rules.VerifRepoDump(w.repo))
 }
